@@ -58,7 +58,7 @@ class Reporter:
     def violation(self, signature, message, replay):
         """signature: short stable string describing *what* fails (call site + input class)."""
         for f in self.findings:
-            if f['signature'] == signature:
+            if signature == f.get('signature') or signature in f.get('signatures', []):
                 self.known[f['id']] = self.known.get(f['id'], 0) + 1
                 return False
         n = sum(1 for v in self.violations if v['signature'] == signature)
